@@ -60,6 +60,8 @@ def run(chk):
     retry_probe(chk, 25 if chk.tier == "quick" else 400)
     for lib in libs:
         _compose.run_lib(lib, chk, "C10")
+    from props import _alloc
+    _alloc.run_alloc(chk, 2 if chk.tier == "quick" else 25, props=("C10",))
     from props import _state
     _state.run_state(chk)
     _state.run_length_wrap(chk)
@@ -70,4 +72,4 @@ def run(chk):
             f.run_malformed(chk)
     _compose.finish(chk)
     chk.trusted += ["the registry, tensor, codec and C-API rejection paths are decided by C16, C07, C14 and C20 respectively; this check covers Shape/Device/functions/Graph entry points and allocation-failure atomicity of forward evaluation",
-                    "allocation failure is injected at operator granularity (the k-th operator forward throws), not inside a kernel"]
+                    "allocation failure is injected twice: at operator granularity in the graph family (model-checked against the Lean model), and at the k-th device allocation for every k inside real function programs (h_grad alloc mode, implementation-side oracle)"]
